@@ -167,6 +167,26 @@ def cases(tier, seed):
                     c["id"] = "%s=%s@%s%s" % (k, json.dumps(d), pos, "#b" if builder else "")
                     c["key"] = key_of(["C06", c["id"], c["doc"], c["ops"]])
                     out.append(c)
+    out += selfref_cases(tier)
+    return out
+
+
+def selfref_cases(tier):
+    """the defaulted member is itself the recursive reference (rendered Box<Holder>): only INVALID defaults are candidates, a valid one
+    would denote an infinite value"""
+    out = []
+    for form in ("sibling", "allof"):
+        for req in (False,):   # the default of a REQUIRED member is never honoured (nor looked at): outside the property
+            for d in (None, 5, "x", [], {"q": "s"}):
+                ref_h = {"$ref": "#/definitions/Holder"}
+                m = dict(ref_h, default=d) if form == "sibling" else {"default": d, "allOf": [ref_h]}
+                defs = dict(DEFS)
+                defs["Holder"] = {"type": "object", "properties": {"p": m, "q": INT}, "required": ["q"] + (["p"] if req else [])}
+                c = {"kind": "self_boxed", "default": d, "valid": False, "pos": "member", "builder": True, "settings": {"struct_builder": True},
+                     "member_schema": ref_h, "src": "hand", "doc": {"definitions": defs}, "ops": None}
+                c["id"] = "self_boxed[%s%s]=%s@member#b" % (form, ",req" if req else "", json.dumps(d))
+                c["key"] = key_of(["C06", c["id"], c["doc"], c["ops"]])
+                out.append(c)
     return out
 
 
